@@ -188,7 +188,7 @@ class LazyModel(histmc.HistModel):
                 put(cls.__name__, name, kind)
         for tname in sorted(core.PRIVATE_TABLES):
             T = core.PRIVATE_TABLES[tname]
-            put("table", tname, list(T.properties))
+            put("table", tname, sorted(T.properties))     # membership is what the loaders test, never the order
             shapes = []
             for el in T:
                 shapes.append(frozenset(k for k in el.__dict__ if k != "_xray"))
